@@ -2,8 +2,8 @@
 from reg._common import COMMON_ASSUME
 
 ENTRY = {
-    'lean_files': ['Tables/C08.lean', 'Props/C08.lean', 'Props/C08Triangle.lean', 'Props/C08Rounding.lean'],
-    'lemma_files': ['Lemmas/Rounding.lean', 'Lemmas/RoundingMore.lean', 'Lemmas/TriDeriv.lean', 'Lemmas/Triangle.lean', 'Model/Triangle.lean', 'Lemmas/Shift.lean', 'Lemmas/Bridge.lean', 'Lemmas/VS.lean', 'Lemmas/Elevate.lean', 'Model/Basic.lean', 'Model/Curve.lean'],
+    'lean_files': ['Tables/C08.lean', 'Props/C08.lean', 'Props/C08Triangle.lean', 'Props/C08Rounding.lean', 'Props/C08TriangleRounding.lean'],
+    'lemma_files': ['Lemmas/RoundingTriElev.lean', 'Lemmas/RoundingTriPy.lean', 'Lemmas/Rounding.lean', 'Lemmas/RoundingMore.lean', 'Lemmas/TriDeriv.lean', 'Lemmas/Triangle.lean', 'Model/Triangle.lean', 'Lemmas/Shift.lean', 'Lemmas/Bridge.lean', 'Lemmas/VS.lean', 'Lemmas/Elevate.lean', 'Model/Basic.lean', 'Model/Curve.lean'],
     'script': 'props/c08.py',
     'rule': 'cases = (routine, number of nodes, dimension, net); elevation: scaled identity nets (all unit nets, outputs integral => '
             'bit-exact vs model), degrees 1..40, binary64 nets, end points bitwise, same-map test at dyadic parameters; reduction: '
@@ -13,7 +13,7 @@ ENTRY = {
             'bitwise); non-trivial = net not all zero; distinct by hash of exact inputs',
     'partial': [
                 'full_reduce_elevate proved for one elevation step per call (k-fold follows by iteration of the same lemma)',
-                'rounding theorems (Props/C08Rounding): elevation exponent 4 (Python) / 3 (Fortran) with scale |v_{j-1}|+|v_j|, reduction tables exponent N+3 <= 8; comparators 8u, 16u; triangle elevation rounding not covered',
+                'rounding theorems (Props/C08Rounding): elevation exponent 4 (Python) / 3 (Fortran) with scale |v_{j-1}|+|v_j|, reduction tables exponent N+3 <= 8; comparators 8u, 16u; triangle elevation (Props/C08TriangleRounding): exponent 5 (4 if fl is idempotent) under fl(d+1) = d+1, corners exact, comparator 16 u max|v|',
                 'Triangle.elevate: proved for every degree (Props/C08Triangle): length, the three corners are copied exactly (raw, notation classes only - the statement behind the repaired defect F-I), the closed formula of every entry, and tri_elevate_same_map: the elevated net defines the same map (l1+l2+l3) * B(l) for all barycentric weights; tied to the code by the triangle elevation op of the driver',
     ],
     'trusted_base': ['modelled not verified: elevate_nodes / reduce_pseudo_inverse / projection_error / maybe_reduce / full_reduce in '
